@@ -137,6 +137,9 @@ def run_case(case):
 
     L = max(n_after, 1)
     size_sets = [[65536], [1], [2, 3], [7], [max(L - 1, 1)], [L], [L + 1], [1, 65536], [3, 1, 7]]
+    if n_after > 5000:
+        # byte-sized reads of a large hand-over only cost time: sizes around the chunk and buffer boundaries instead
+        size_sets = [[65536], [4096], [1000, 3], [max(L - 1, 1)], [L], [L + 1], [16384], [65535], [1, 65536]]
 
     async def main():
         if kind == "tunnel":
@@ -166,9 +169,13 @@ def run_case(case):
         head_len = wire - n_after - (9 if info.get("live") else 0)
         segs = [("all", Segmentation("all")), ("fixed1", Segmentation("fixed", 1)),
                 ("random", Segmentation("random", rng=random.Random(case["seed"])))]
-        for c in range(1, head_len + n_after + 1):
-            if n_after <= 64 or c >= head_len - 4:
-                segs.append(("cut", Segmentation("cuts", [c])))
+        cut_at = [c for c in range(1, head_len + n_after + 1) if n_after <= 64 or c >= head_len - 4]
+        if len(cut_at) > 400:
+            # large hand-overs: every cut around the head/data boundary, a seeded sample of the rest, and the last bytes
+            keep = set(cut_at[:40]) | set(cut_at[-8:]) | set(random.Random(case["seed"] + 1).sample(cut_at, 60))
+            cut_at = sorted(keep)
+        for c in cut_at:
+            segs.append(("cut", Segmentation("cuts", [c])))
         for name, seg in segs:
             if name == "cut":
                 sz_list = [size_sets[(seg.arg[0] + j) % len(size_sets)] for j in range(2)]
